@@ -194,6 +194,96 @@ def build(chk):
                                 meta={"replay": {"cls": cname, "what": "array"}})
     generic_inverse_formulas(chk)
     convert_inf(chk)
+    lazy_scale(chk)
+
+
+def lazy_scale(chk):
+    """b-scaled maps constructed with b=None: `set_maximum_parameter_b` takes b from the first array it sees (its maximum) and never changes a
+    b that is set; every method that uses b installs it first, and its result is the one of the same map constructed with that b - so all
+    clauses proved above for a given b > 0 carry over to the lazily scaled instance."""
+    eng = chk.eng
+    n, i0, g0 = z3.Ints("n i0 g0")
+    X = z3.Function("X", z3.IntSort(), z3.RealSort())
+    Y = z3.Function("Y", z3.IntSort(), z3.RealSort())
+    for cname in ("LinearInfiniteRTransform", "ExpRTransform", "PowerRTransform"):
+        spec = CLASSES[cname]
+        fq = f"{MOD}.{cname}"
+        rep = {"cls": cname, "what": "lazy-scale"}
+
+        def t_set(eng_, given, cname=cname, spec=spec):
+            for e in spec["extra"]:
+                eng_.assume(e)
+            eng_.assume(z3.And(n >= 1, g0 >= 0, g0 < n))
+            eng_.generic_indices = [g0]
+            try:
+                tf = eng_.new_object(eng_.get_class(MOD, cname), rmin, rmax, b_ if given else None)
+                xa = I.Arr((n,), lambda i: X(T.zi(i)), "real")
+                ya = I.Arr((n,), lambda i: Y(T.zi(i)), "real")
+                eng_.call_method(tf, "set_maximum_parameter_b", xa)
+                b1 = tf.fields["_b"]
+                eng_.call_method(tf, "set_maximum_parameter_b", ya)
+                return b1, tf.fields["_b"]
+            finally:
+                eng_.generic_indices = []
+        for given in (True, False):
+            tag = "given" if given else "unset"
+            outs = chk.explore(f"{cname}.set_maximum_parameter_b/{tag}", lambda e, given=given: t_set(e, given), func=f"{fq}.set_maximum_parameter_b")
+            rets = [o for o in outs if o.kind == "return"]
+            chk.add(f"{cname}.set_maximum_parameter_b/{tag}/post/returns", [], z3.BoolVal(bool(rets)), func=f"{fq}.set_maximum_parameter_b", meta={"replay": rep})
+            for oi, o in enumerate(rets):
+                sfx = "" if len(rets) == 1 else f"@{oi}"
+                b1, b2 = o.value
+                hy = list(o.pc) + list(o.assumptions)
+                if given:
+                    ok = T.is_sym(b1) and T.is_sym(b2) and b1.eq(b_) and b2.eq(b_)
+                    chk.add(f"{cname}.set_maximum_parameter_b/given/frame/b-unchanged{sfx}", [], z3.BoolVal(bool(ok)), kind="frame",
+                            func=f"{fq}.set_maximum_parameter_b", meta={"replay": rep})
+                    continue
+                if b1 is None or not T.is_sym(b1):
+                    chk.add(f"{cname}.set_maximum_parameter_b/unset/post/b-is-the-maximum{sfx}", [], z3.BoolVal(False), func=f"{fq}.set_maximum_parameter_b", meta={"replay": rep})
+                    continue
+                j = z3.Int("j_w")
+                chk.add(f"{cname}.set_maximum_parameter_b/unset/post/b-is-an-upper-bound{sfx}", hy, T.zr(b1) >= X(g0), func=f"{fq}.set_maximum_parameter_b", meta={"replay": rep})
+                chk.add(f"{cname}.set_maximum_parameter_b/unset/post/b-is-attained{sfx}", hy, z3.Exists([j], z3.And(j >= 0, j < n, T.zr(b1) == X(j))),
+                        func=f"{fq}.set_maximum_parameter_b", meta={"replay": rep})
+                chk.add(f"{cname}.set_maximum_parameter_b/unset/frame/b-kept-by-later-calls{sfx}", [], z3.BoolVal(b2 is b1 or (T.is_sym(b2) and b2.eq(b1))), kind="frame",
+                        func=f"{fq}.set_maximum_parameter_b", meta={"replay": rep})
+
+        # the terms for a given b (scalar argument), as in build()
+        given_rets, _ = scalar_terms(chk, cname, spec)
+        if not given_rets or any(not z3.simplify(T.zr(o.value[m_])).eq(z3.simplify(T.zr(given_rets[0].value[m_]))) for o in given_rets[1:] for m_ in METHODS):
+            chk.undecided.append((f"C03/{cname}/lazy-scale", "the paths for a given b do not produce one term per method"))
+            continue
+        given = given_rets[0].value
+        for mname in METHODS:
+            def t_first(eng_, mname=mname, cname=cname, spec=spec):
+                for e in spec["extra"]:
+                    eng_.assume(e)
+                eng_.assume(z3.And(n >= 1, i0 >= 0, i0 < n))
+                tf = eng_.new_object(eng_.get_class(MOD, cname), rmin, rmax, None)
+                arr = I.Arr((n,), lambda i: X(T.zi(i)), "real")
+                v = eng_.call_method(tf, mname, arr)
+                return (v.fn(i0) if isinstance(v, I.Arr) else v), tf.fields["_b"]
+            outs = chk.explore(f"{cname}.{mname}/first-call-without-b", t_first, func=f"{fq}.{mname}")
+            rets = [o for o in outs if o.kind == "return"]
+            chk.add(f"{cname}.{mname}/first-call-without-b/post/returns", [], z3.BoolVal(bool(rets)), func=f"{fq}.{mname}", meta={"replay": rep})
+            for oi, o in enumerate(rets):
+                sfx = "" if len(rets) == 1 else f"@{oi}"
+                val, bnow = o.value
+                var = r if mname == "inverse" else x
+                want = given[mname]
+                uses_b = any(u.eq(b_) for u in T.subterms(want).values()) or want.eq(b_)
+                if uses_b and (bnow is None or not T.is_sym(bnow)):
+                    chk.add(f"{cname}.{mname}/first-call-without-b/post/as-with-that-b{sfx}", [], z3.BoolVal(False), func=f"{fq}.{mname}", meta={"replay": rep})
+                    continue
+                subs = [(var, X(i0))] + ([(b_, T.zr(bnow))] if uses_b else [])
+                want = z3.substitute(want, *subs)
+                got = T.zr(val)
+                name = f"{cname}.{mname}/first-call-without-b/post/as-with-that-b{sfx}"
+                if z3.simplify(got).eq(z3.simplify(want)):
+                    chk.add(name, [], z3.BoolVal(True), func=f"{fq}.{mname}", meta={"replay": rep})
+                else:
+                    chk.add_identity(name, got, want, list(o.pc), func=f"{fq}.{mname}", meta={"replay": rep}, side=False)
 
 
 def split_all(terms, hyps):
@@ -408,7 +498,7 @@ def main(tier="quick", seed=0, bounded=True, proof=True):
         "floats are reals: no rounding, IEEE infinities only as concrete values",
         "differentiation rule table pyvc.calculus.D (cross-checked numerically against sympy.diff on each transform)",
         "laws of real powers/exp/log on positive bases used by the atom abstraction (pyvc.calculus.Atomiser); each use emits a base>0 side obligation",
-        "admissibility conditions beyond constructor guards: R>0 (Becke/MultiExp/Knowles/Handy), b>0 and explicitly given (b-scaled maps), rmin>0 (Exp), rmax-rmin>2^m-1 (HandyMod pole-free)",
+        "admissibility conditions beyond constructor guards: R>0 (Becke/MultiExp/Knowles/Handy), b>0 (b-scaled maps; for b=None the scale is the maximum of the first grid, proved to be installed once and then to give the same terms - positive when that grid is), rmin>0 (Exp), rmax-rmin>2^m-1 (HandyMod pole-free)",
     ]
     if proof:
         build(chk)
